@@ -1,4 +1,4 @@
-(* Checkers used by the C06 correspondence: the hand model Model/Transport.v against what real asyncssh
+(* Checkers used by the C06 correspondence: the hand model of record (Model/Transport.v: step = repaired code) against what real asyncssh
    endpoints were observed to do (harness/c06_probe.py).  Each checker takes one case and says whether
    the model agrees with the observation. *)
 From AV Require Import Base.Prelude Model.Transport.
@@ -73,24 +73,24 @@ Fixpoint book_obs (s : st) (l : list (Z * Z * Z)) : option st :=
   end.
 
 (* the model on one chunk followed by a settle: new state, what it sent, delegated?, damaged body in the chunk? *)
-Fixpoint feed_chunk (fixed fixk : bool) (s : st) (l : list (Z * Z * bool)) : st * bool :=
+Fixpoint feed_chunk (s : st) (l : list (Z * Z * bool)) : st * bool :=
   match l with
   | [] => (s, false)
   | (t, cls, mal) :: r =>
-    let s1 := step fixed fixk s (if t =? -1 then EvVersion else EvRecv t cls) in
-    let '(s2, m2) := feed_chunk fixed fixk s1 r in (s2, mal || m2)
+    let s1 := step s (if t =? -1 then EvVersion else EvRecv t cls) in
+    let '(s2, m2) := feed_chunk s1 r in (s2, mal || m2)
   end.
 
-Definition model_step (fixed fixk : bool) (s : st) (chunk : list (Z * Z * bool)) : st * list (Z * Z) * bool * bool :=
-  let '(s1, m1) := feed_chunk fixed fixk (begin_step s) chunk in
-  let s2 := step fixed fixk s1 EvSettle in
+Definition model_step (s : st) (chunk : list (Z * Z * bool)) : st * list (Z * Z) * bool * bool :=
+  let '(s1, m1) := feed_chunk (begin_step s) chunk in
+  let s2 := step s1 EvSettle in
   (s2, olog (cn s2), deleg (cn s2), m1).
 
 Inductive chk_res := Ok (s : st) | Accept | Bad.
 
-Definition chk_step (fixed fixk : bool) (s : st) (stp : ostep) : chk_res :=
+Definition chk_step (s : st) (stp : ostep) : chk_res :=
   let '(chunk, obs, oclosed) := stp in
-  let '(s1, mo, dg, mal) := model_step fixed fixk s chunk in
+  let '(s1, mo, dg, mal) := model_step s chunk in
   match book_obs s1 obs with
   | None => Bad
   | Some s2 =>
@@ -102,51 +102,51 @@ Definition chk_step (fixed fixk : bool) (s : st) (stp : ostep) : chk_res :=
          else Bad
   end.
 
-Fixpoint chk_steps (fixed fixk : bool) (s : st) (l : list ostep) : bool :=
+Fixpoint chk_steps (s : st) (l : list ostep) : bool :=
   match l with
   | [] => true
-  | stp :: r => match chk_step fixed fixk s stp with
-                | Ok s1 => chk_steps fixed fixk s1 r
+  | stp :: r => match chk_step s stp with
+                | Ok s1 => chk_steps s1 r
                 | Accept => true
                 | Bad => false
                 end
   end.
 
 (* number of steps that agree before the first disagreement (diagnostics) *)
-Fixpoint agree_len (fixed fixk : bool) (s : st) (l : list ostep) (n : Z) : Z :=
+Fixpoint agree_len (s : st) (l : list ostep) (n : Z) : Z :=
   match l with
   | [] => n
-  | stp :: r => match chk_step fixed fixk s stp with
-                | Ok s1 => agree_len fixed fixk s1 r (n + 1)
+  | stp :: r => match chk_step s stp with
+                | Ok s1 => agree_len s1 r (n + 1)
                 | Accept => -1
                 | Bad => n
                 end
   end.
 
 (* a whole observed session *)
-Definition chk_history (c : bool * bool * bool * list ostep) : bool :=
-  let '(server, fixed, fixk, steps) := c in chk_steps fixed fixk (init server) steps.
+Definition chk_history (c : bool * list ostep) : bool :=
+  let '(server, steps) := c in chk_steps (init server) steps.
 
-Definition where_history (c : bool * bool * bool * list ostep) : Z :=
-  let '(server, fixed, fixk, steps) := c in agree_len fixed fixk (init server) steps 0.
+Definition where_history (c : bool * list ostep) : Z :=
+  let '(server, steps) := c in agree_len (init server) steps 0.
 
 (* ---- one row of the generated table against the model ---------------------------------------------------
    prefix: the chunks of the untampered session delivered before the injection point; suffix: those after it;
    row: (type, cls, verdict) for the well-formed variant of every type *)
-Fixpoint run_chunks (fixed fixk : bool) (s : st) (l : list (list (Z * Z * bool))) : st :=
+Fixpoint run_chunks (s : st) (l : list (list (Z * Z * bool))) : st :=
   match l with
   | [] => s
-  | ch :: r => let '(s1, o1, _, _) := model_step fixed fixk s ch in run_chunks fixed fixk (note_all s1 (map fst o1)) r
+  | ch :: r => let '(s1, o1, _, _) := model_step s ch in run_chunks (note_all s1 (map fst o1)) r
   end.
 
-Definition predicted_ok (fixed fixk : bool) (s : st) (suffix : list (list (Z * Z * bool))) (e : Z * Z * verdict) : bool :=
+Definition predicted_ok (s : st) (suffix : list (list (Z * Z * bool))) (e : Z * Z * verdict) : bool :=
   let '(t, cls, v) := e in
-  let '(s1, mo, dg, _) := model_step fixed fixk s [(t, cls, false)] in
+  let '(s1, mo, dg, _) := model_step s [(t, cls, false)] in
   if dg then true
   else if negb (app_events (cn s1) =? app_events (cn s)) then verdict_eqb v VH     (* an application callback ran *)
   else if closed (cn s1) then verdict_eqb v VF
   else
-    let later := closed (cn (run_chunks fixed fixk (note_all s1 (map fst mo)) suffix)) in
+    let later := closed (cn (run_chunks (note_all s1 (map fst mo)) suffix)) in
     let same := conn_eqb (cn s1) (cn s) in
     match mo with
     | [] => if same then verdict_eqb v (if later then VL else VI)
@@ -156,12 +156,12 @@ Definition predicted_ok (fixed fixk : bool) (s : st) (suffix : list (list (Z * Z
     | _ => verdict_eqb v VH || verdict_eqb v VL
     end.
 
-Definition chk_row (c : bool * bool * bool * list (list (Z * Z * bool)) * list (list (Z * Z * bool)) * list (Z * Z * verdict)) : bool :=
-  let '(server, fixed, fixk, prefix, suffix, row) := c in
-  let s := run_chunks fixed fixk (init server) prefix in
-  forallb (predicted_ok fixed fixk s suffix) row.
+Definition chk_row (c : bool * list (list (Z * Z * bool)) * list (list (Z * Z * bool)) * list (Z * Z * verdict)) : bool :=
+  let '(server, prefix, suffix, row) := c in
+  let s := run_chunks (init server) prefix in
+  forallb (predicted_ok s suffix) row.
 
-Definition bad_in_row (c : bool * bool * bool * list (list (Z * Z * bool)) * list (list (Z * Z * bool)) * list (Z * Z * verdict)) : list Z :=
-  let '(server, fixed, fixk, prefix, suffix, row) := c in
-  let s := run_chunks fixed fixk (init server) prefix in
-  map (fun e => fst (fst e)) (filter (fun e => negb (predicted_ok fixed fixk s suffix e)) row).
+Definition bad_in_row (c : bool * list (list (Z * Z * bool)) * list (list (Z * Z * bool)) * list (Z * Z * verdict)) : list Z :=
+  let '(server, prefix, suffix, row) := c in
+  let s := run_chunks (init server) prefix in
+  map (fun e => fst (fst e)) (filter (fun e => negb (predicted_ok s suffix e)) row).
